@@ -35,6 +35,35 @@ def parse(text: str, **options: t.Any) -> Date | Time | DateTime | Duration:
         raise ParserError(f"Unable to parse string [{text}]: value out of range")
 
 
+def _datetime(parsed: datetime.datetime, **options: t.Any) -> DateTime:
+    """
+    The DateTime a parsed date and time denotes, in its own offset
+    or else in the requested timezone.
+    """
+    return pendulum.datetime(
+        parsed.year,
+        parsed.month,
+        parsed.day,
+        parsed.hour,
+        parsed.minute,
+        parsed.second,
+        parsed.microsecond,
+        tz=parsed.tzinfo or options.get("tz", UTC),
+    )
+
+
+def _endpoint(
+    parsed: datetime.date | datetime.datetime, **options: t.Any
+) -> Date | DateTime:
+    """
+    An endpoint of an interval: what the same text denotes on its own.
+    """
+    if isinstance(parsed, datetime.datetime):
+        return _datetime(parsed, **options)
+
+    return pendulum.instance(parsed, tz=options.get("tz", UTC))
+
+
 def _parse(
     text: str, **options: t.Any
 ) -> Date | DateTime | Time | Duration | Interval[DateTime]:
@@ -50,16 +79,7 @@ def _parse(
     parsed = base_parse(text, **options)
 
     if isinstance(parsed, datetime.datetime):
-        return pendulum.datetime(
-            parsed.year,
-            parsed.month,
-            parsed.day,
-            parsed.hour,
-            parsed.minute,
-            parsed.second,
-            parsed.microsecond,
-            tz=parsed.tzinfo or options.get("tz", UTC),
-        )
+        return _datetime(parsed, **options)
 
     if isinstance(parsed, datetime.date):
         return pendulum.date(parsed.year, parsed.month, parsed.day)
@@ -88,7 +108,7 @@ def _parse(
             }
 
             if parsed.start is not None:
-                dt = pendulum.instance(parsed.start, tz=options.get("tz", UTC))
+                dt = _endpoint(parsed.start, **options)
 
                 return pendulum.interval(
                     dt,
@@ -97,9 +117,7 @@ def _parse(
                     ),
                 )
 
-            dt = pendulum.instance(
-                t.cast(datetime.datetime, parsed.end), tz=options.get("tz", UTC)
-            )
+            dt = _endpoint(t.cast(datetime.datetime, parsed.end), **options)
 
             return pendulum.interval(
                 dt.subtract(
@@ -109,12 +127,8 @@ def _parse(
             )
 
         return pendulum.interval(
-            pendulum.instance(
-                t.cast(datetime.datetime, parsed.start), tz=options.get("tz", UTC)
-            ),
-            pendulum.instance(
-                t.cast(datetime.datetime, parsed.end), tz=options.get("tz", UTC)
-            ),
+            _endpoint(t.cast(datetime.datetime, parsed.start), **options),
+            _endpoint(t.cast(datetime.datetime, parsed.end), **options),
         )
 
     if isinstance(parsed, Duration):
